@@ -370,3 +370,121 @@ def nontrivial(prob):
     bm, bn, bx = prob['bsol']
     mixed = sum(1 for v in (bm, bn, bx) if v) >= 2
     return mixed and prob['orient']['kind'] != 'none' and prob['mn']['kind'] != 'default'
+
+
+# ----------------------------------------------------------------------------- many decades in r within ONE call
+# A decades case evaluates every field for ONE array of points  pos_ij = L r_i (cos phi_j m + sin phi_j n + zrel_j xi),
+# r_i = mantissa 10^k, k = -6 .. 6, L = 10^lk the overall length unit of the field points (and, in half of the scaled cases,
+# of the Burgers vector too: consistent units).  In 3/4 of the cases the smallest and the largest radius are 12 decades
+# apart (k = -6 and k = +6 both present), else whatever the draw gives.  tol: the solvers' documented rounding argument,
+# not handed over (default 1e-8) in half of the cases, else one of 1e-8, 1e-4, 1e-5, 1e-6, 1e-10.
+_dec_k = st.integers(-6, 6)
+_mant = st.one_of(gens.nice(1.0, 9.9, 3), st.sampled_from([1.0, 1.0, 2.0, 5.0]))
+_radius = st.tuples(_mant, _dec_k).map(list)
+_radii = st.lists(_radius, min_size=2, max_size=4)
+_zrel = st.one_of(gens.nice(-3.0, 3.0, 2), st.sampled_from([0.0, 0.0, 1.0]))
+_dray = st.tuples(_phi, _zrel).map(list)
+_drays = st.lists(_dray, min_size=1, max_size=3)
+LSCALES = [0] * 10 + [-10] * 4 + [-12, -9, -8, -6, -3, -2, -1, 1, 2, 3, 6]
+_lscale = st.sampled_from(LSCALES)
+TOLS = [None] * 6 + [1e-8, 1e-4, 1e-4, 1e-5, 1e-6, 1e-10]
+_tolopt = st.sampled_from(TOLS)
+_order = st.integers(0, 2)
+
+
+def pow10(k):
+    return float('1e%d' % int(k))
+
+
+@functools.lru_cache(maxsize=None)
+def decade_cases():
+    probs = problems()
+
+    @st.composite
+    def _d(draw):
+        prob = dict(draw(probs))
+        tol = draw(_tolopt)
+        if tol is not None:
+            prob['tol'] = tol
+        lk = draw(_lscale)
+        if lk and draw(_bool):
+            prob['bsol'] = [v * pow10(lk) for v in prob['bsol']]
+            prob['bscaled'] = True
+        radii = draw(_radii)
+        if draw(_sel) <= 8:
+            radii = [[radii[0][0], -6]] + radii[1:] + [[radii[-1][0], 6]]
+        return {'prob': prob, 'lk': lk, 'radii': radii, 'rays': draw(_drays), 'order': draw(_order),
+                'fd': draw(_sel), 'ptlist': draw(_bool)}
+    return _d()
+
+
+def decade_points(case):
+    """[(i, j, r, local)] in the order of the array handed to the solver; local = [x, y, z] in the (m, n, xi) frame, r the
+    distance from the line (length unit included)"""
+    L = pow10(case['lk'])
+    out = []
+    for i, (mant, k) in enumerate(case['radii']):
+        r = mant * pow10(k) * L
+        for j, (phi, zrel) in enumerate(case['rays']):
+            t = math.radians(phi)
+            out.append((i, j, r, [r * math.cos(t), r * math.sin(t), r * zrel]))
+    o = case['order']
+    if o == 1:
+        out.sort(key=lambda e: (e[1], e[0]))                # ray-major
+    elif o == 2:
+        out.reverse()                                       # far to near
+    return out
+
+
+# ----------------------------------------------------------------------------- caller-side histories
+# A history case solves ONE problem with caller-side objects (the ElasticConstants object, Burgers vector / m / n / transform /
+# Miller-index arrays in a drawn input form, the Box), reads every output, and then interprets a list of operations against the
+# CALLER's objects and the solution; after every operation every output of the first solution is read again.
+#   forms[k]  (k-th array-valued argument): 0 C-contiguous float64 array, 1 strided view into a larger buffer, 2 Fortran-ordered /
+#             reversed-stride view, 3 read-only array, 4 nested list, 5 tuple
+#   ops       {'op': 'C', 'how': one of C_HOWS, 'f': factor, 'perm': 0..5}      the caller re-defines its ElasticConstants object
+#             {'op': 'arr', 'which': k, 'f': factor}                            the k-th (modulo) of the array-valued arguments actually handed
+#                                                                               over (b, m, n, transform / axes, uvw, hkl, m, n) is overwritten in place
+#             {'op': 'box', 'how': one of BOX_HOWS, 'f': factor}                the caller's Box is re-defined through a setter
+#             {'op': 'again', 'solver': ...}                                    another solution is built from the caller's objects
+#             {'op': 'eval', 'pts': [...]}                                      the solution is evaluated at other points
+#             {'op': 'pos'}                                                     the position array of the first evaluation is overwritten
+#             {'op': 'out'}                                                     the arrays the solution RETURNED (fields, K_tensor, p, A, L, k,
+#                                                                               C.Cij) are overwritten in place
+# Orientation: as in problems(), but in 4 of 12 cases the identity (no orientation argument, or transform= / axes= the unit
+# matrix with non-unit row lengths) - the configuration in which nothing needs rotating.
+C_HOWS = ('Cij', 'Cij', 'Cijkl', 'Sij', 'Cij9', 'Sijkl', 'cubic', 'isotropic', 'hexagonal', 'orthorhombic')
+BOX_HOWS = ('vects', 'set_vectors', 'set_abc', 'set_lengths', 'origin')
+_factor = st.sampled_from([2.0, 0.5, -1.0, 3.0, 1.5, -2.5])
+_pfactor = st.sampled_from([2.0, 0.5, 3.0, 1.5, 0.37])
+_form = st.sampled_from([0, 0, 0, 1, 2, 3, 4, 5])
+_opC = st.fixed_dictionaries({'op': st.just('C'), 'how': st.sampled_from(C_HOWS), 'f': _pfactor, 'perm': st.integers(0, 5)})
+_oparr = st.fixed_dictionaries({'op': st.just('arr'), 'which': st.integers(0, 11), 'f': _factor})
+_opbox = st.fixed_dictionaries({'op': st.just('box'), 'how': st.sampled_from(BOX_HOWS), 'f': _pfactor})
+_opagain = st.fixed_dictionaries({'op': st.just('again'), 'solver': st.sampled_from(['same', 'same', 'stroh', 'iso', 'auto'])})
+_opeval = st.fixed_dictionaries({'op': st.just('eval'), 'pts': st.lists(local_point(), min_size=1, max_size=3), 'ptlist': _bool})
+_opmisc = st.sampled_from([{'op': 'pos'}, {'op': 'out'}])
+
+
+@functools.lru_cache(maxsize=None)
+def history_cases():
+    probs = problems()
+    @st.composite
+    def _op(draw):
+        w = draw(_sel)                                       # (one_of would merge repeated alternatives: explicit weights)
+        return draw(_opC if w <= 3 else _oparr if w <= 7 else _opbox if w == 8 else _opagain if w == 9 else _opeval if w == 10 else _opmisc)
+    ops = st.lists(_op(), min_size=2, max_size=6)
+
+    @st.composite
+    def _h(draw):
+        prob = dict(draw(probs))
+        w = draw(_sel)
+        if w == 0 or w == 1:
+            prob['orient'] = {'kind': 'none'}
+        elif w <= 3:
+            prob['orient'] = {'kind': 'transform', 'rot': [[0, 0, 1], 0.0], 'rowscale': draw(_rowscale),
+                              'via': 'axes' if draw(_sel) < 3 else 'transform'}
+        prob['aslist'] = False                               # the form of every argument is drawn separately (forms)
+        return {'prob': prob, 'forms': draw(st.lists(_form, min_size=6, max_size=6)), 'ops': draw(ops),
+                'pts': draw(local_points(2, 4)), 'order': draw(st.integers(0, 10 ** 6))}
+    return _h()
